@@ -1128,13 +1128,34 @@ fn c06_layer2(args: &Args, rep: &mut Report, w: &Watch) {
                 continue;
             }
         };
-        let pre = rng.below(4);
+        let pre = rng.below(7);
+        // a third type for operands that are built from three
+        let z_rt = tgen::one_edit(&mut rng, &b);
         let operands = guard(|| {
             Ok(match pre {
                 0 => (x0.clone(), y0.clone(), "plain"),
                 1 => (x0.complement()?, y0.clone(), "complement-left"),
                 2 => (x0.clone(), y0.complement()?, "complement-right"),
-                _ => (x0.diff(&y0)?, y0.union(&x0)?, "diff/union"),
+                3 => (x0.diff(&y0)?, y0.union(&x0)?, "diff/union"),
+                // operands that are "everything" (or nearly) without being the trivial diagram:
+                // A | B | (!A & !B) against A | C | (!A & !C), and (!A | B) | (A & !B)
+                4 => {
+                    let z0 = z_rt.to_sem_type(&refs, &mut ctx)?;
+                    let t1 = x0.union(&y0)?.union(&x0.complement()?.intersect(&y0.complement()?)?)?;
+                    let t2 = x0.union(&z0)?.union(&x0.complement()?.intersect(&z0.complement()?)?)?;
+                    (t1, t2, "hidden-tautologies")
+                }
+                5 => {
+                    let t1 = x0.complement()?.union(&y0)?.union(&x0.intersect(&y0.complement()?)?)?;
+                    let t2 = x0.union(&y0)?.union(&x0.complement()?.intersect(&y0.complement()?)?)?;
+                    (t1, t2, "hidden-tautologies-2")
+                }
+                // and operands that are nothing without being the trivial diagram
+                _ => {
+                    let t1 = x0.diff(&y0)?.intersect(&y0.diff(&x0)?)?;
+                    let t2 = x0.union(&y0)?.diff(&x0)?.diff(&y0)?;
+                    (t1.union(&x0.intersect(&y0)?)?, t2.union(&y0)?, "hidden-contradictions")
+                }
             })
         });
         let (x, y, pre_name) = match operands {
